@@ -39,6 +39,82 @@ def spec_names():
 
 ARGS = {0: [], 1: [b'k'], 2: [b'k', b'v'], 3: [b'k', b'0', b'v']}
 
+# Keys of every type that the authenticated control connection creates before the probes.
+SETUP = [[b'SET', b'k', b'secret'], [b'SET', b'ks', b'10'], [b'RPUSH', b'kl', b'a', b'b', b'c'], [b'HSET', b'kh', b'f', b'1'],
+         [b'SADD', b'kS', b'a', b'b'], [b'ZADD', b'kz', b'1', b'a', b'2', b'b'], [b'XADD', b'kx', b'1-1', b'f', b'v'],
+         [b'XGROUP', b'CREATE', b'kx', b'g', b'0-0'], [b'XREADGROUP', b'GROUP', b'g', b'c', b'STREAMS', b'kx', b'>']]
+
+# Well-formed invocations (arguments after the name): what an authenticated connection would be served.  The generic
+# forms `NAME k` / `NAME k v` stay in the enumeration; these make the probe meaningful for commands whose generic form
+# is refused for its syntax alone (an error either way).  calibrate() demands that every dispatched name has at least
+# one form that an authenticated connection is served without error, except the names in NO_CALIBRATION.
+F = lambda *xs: [x if isinstance(x, bytes) else x.encode() for x in xs]
+FORMS = {
+    'APPEND': [F('ks', 'x')], 'BGREWRITEAOF': [F()], 'BGSAVE': [F()], 'BLPOP': [F('kl', '0.01')], 'BRPOP': [F('kl', '0.01')],
+    'CLIENT': [F('LIST'), F('ID'), F('GETNAME'), F('SETNAME', 'intruder'), F('INFO'), F('KILL', 'ID', '1')],
+    'COMMAND': [F(), F('COUNT')], 'CONFIG': [F('GET', 'requirepass'), F('GET', '*'), F('SET', 'requirepass', ''), F('SET', 'slowlog-max-len', '7')],
+    'DBSIZE': [F()], 'DECR': [F('ks')], 'DECRBY': [F('ks', '1')], 'DEL': [F('ks')], 'DISCARD': [F()], 'ECHO': [F('x')],
+    'EVAL': [F('return 1', '0'), F("return redis.call('GET','k')", '0'), F("return redis.call('SET','k','owned')", '0')],
+    'EVALSHA': [F('e0e1f9fabfc9d4800c877a703b823ac0578ff8db', '0')],
+    'EXEC': [F()], 'EXISTS': [F('ks')], 'EXPIRE': [F('ks', '100')], 'FLUSHALL': [F()], 'FLUSHDB': [F()], 'GET': [F('k')],
+    'GETRANGE': [F('k', '0', '-1')], 'GETSET': [F('ks', 'x')], 'HDEL': [F('kh', 'f')], 'HEXISTS': [F('kh', 'f')], 'HGET': [F('kh', 'f')],
+    'HGETALL': [F('kh')], 'HINCRBY': [F('kh', 'f', '1')], 'HKEYS': [F('kh')], 'HLEN': [F('kh')], 'HMGET': [F('kh', 'f')],
+    'HMSET': [F('kh', 'g', '2')], 'HSCAN': [F('kh', '0')], 'HSET': [F('kh', 'g', '2')], 'HVALS': [F('kh')], 'INCR': [F('ks')],
+    'INCRBY': [F('ks', '1')], 'INFO': [F(), F('server'), F('keyspace')], 'KEYS': [F('*')], 'LASTSAVE': [F()], 'LINDEX': [F('kl', '0')],
+    'LLEN': [F('kl')], 'LPOP': [F('kl')], 'LPUSH': [F('kl', 'x')], 'LRANGE': [F('kl', '0', '-1')], 'LREM': [F('kl', '0', 'a')],
+    'LSET': [F('kl', '0', 'x')], 'LTRIM': [F('kl', '0', '0')], 'MEMORY': [F('USAGE', 'k'), F('STATS'), F('DOCTOR')], 'MGET': [F('k', 'ks')],
+    'MONITOR': [F()], 'MSET': [F('k', 'x', 'new', 'y')], 'MULTI': [F()], 'PERSIST': [F('ks')], 'PEXPIRE': [F('ks', '100000')],
+    'PING': [F()], 'PSETEX': [F('ks', '100000', 'x')], 'PSUBSCRIBE': [F('*')], 'PSYNC': [F('?', '-1')], 'PTTL': [F('ks')],
+    'PUBLISH': [F('k', 'm')], 'PUNSUBSCRIBE': [F()], 'QUIT': [F()], 'RANDOMKEY': [F()], 'RENAME': [F('ks', 'moved')],
+    'RENAMENX': [F('ks', 'moved')], 'REPLCONF': [F('listening-port', '1'), F('GETACK', '*')], 'REPLICAOF': [F('NO', 'ONE'), F('127.0.0.1', '1')],
+    'RPOP': [F('kl')], 'RPUSH': [F('kl', 'x')], 'SADD': [F('kS', 'x')], 'SAVE': [F()], 'SCAN': [F('0')], 'SCARD': [F('kS')],
+    'SCRIPT': [F('LOAD', 'return 1'), F('EXISTS', 'e0e1f9fabfc9d4800c877a703b823ac0578ff8db'), F('FLUSH')],
+    'SDIFF': [F('kS')], 'SELECT': [F('1')], 'SET': [F('k', 'owned')], 'SETEX': [F('ks', '100', 'x')], 'SETNX': [F('new', 'x')],
+    'SETRANGE': [F('ks', '0', 'x')], 'SINTER': [F('kS')], 'SISMEMBER': [F('kS', 'a')], 'SLAVEOF': [F('NO', 'ONE')],
+    'SLEEP': [F('1')], 'SLOWLOG': [F('GET'), F('LEN'), F('RESET')], 'SMEMBERS': [F('kS')], 'SPOP': [F('kS')], 'SRANDMEMBER': [F('kS')],
+    'SREM': [F('kS', 'a')], 'SSCAN': [F('kS', '0')], 'STRLEN': [F('k')], 'SUBSCRIBE': [F('k')], 'SUNION': [F('kS')], 'SYNC': [F()],
+    'TTL': [F('ks')], 'TYPE': [F('k')], 'UNSUBSCRIBE': [F()], 'UNWATCH': [F()], 'WATCH': [F('k')],
+    'XACK': [F('kx', 'g', '1-1')], 'XADD': [F('kx', '*', 'f', 'v')], 'XCLAIM': [F('kx', 'g', 'c2', '0', '1-1')], 'XDEL': [F('kx', '1-1')],
+    'XGROUP': [F('CREATE', 'kx', 'g2', '$'), F('DESTROY', 'kx', 'g'), F('DELCONSUMER', 'kx', 'g', 'c'), F('SETID', 'kx', 'g', '$')],
+    'XINFO': [F('STREAM', 'kx'), F('GROUPS', 'kx'), F('CONSUMERS', 'kx', 'g')], 'XLEN': [F('kx')], 'XPENDING': [F('kx', 'g'), F('kx', 'g', '-', '+', '10')],
+    'XRANGE': [F('kx', '-', '+')], 'XREAD': [F('STREAMS', 'kx', '0-0')], 'XREADGROUP': [F('GROUP', 'g', 'c2', 'STREAMS', 'kx', '0-0')],
+    'XREVRANGE': [F('kx', '+', '-')], 'XTRIM': [F('kx', 'MAXLEN', '0')], 'ZADD': [F('kz', '3', 'c')], 'ZCARD': [F('kz')],
+    'ZCOUNT': [F('kz', '-inf', '+inf')], 'ZINCRBY': [F('kz', '1', 'a')], 'ZPOPMAX': [F('kz')], 'ZPOPMIN': [F('kz')], 'ZRANGE': [F('kz', '0', '-1')],
+    'ZRANGEBYSCORE': [F('kz', '-inf', '+inf')], 'ZRANK': [F('kz', 'a')], 'ZREM': [F('kz', 'a')], 'ZREVRANGE': [F('kz', '0', '-1')],
+    'ZREVRANGEBYSCORE': [F('kz', '+inf', '-inf')], 'ZREVRANK': [F('kz', 'a')], 'ZSCAN': [F('kz', '0')], 'ZSCORE': [F('kz', 'a')],
+}
+# not sent by calibrate(): they end the process, turn the connection into a replication link or redirect the server
+# (EXEC / DISCARD need a MULTI, which is itself refused; BGREWRITEAOF is refused while appendonly is off)
+NO_CALIBRATION = {'SHUTDOWN', 'SYNC', 'PSYNC', 'REPLICAOF', 'SLAVEOF', 'REPLCONF', 'AUTH', 'EVALSHA', 'EXEC', 'DISCARD',
+                  'BGREWRITEAOF'}
+
+
+def calibrate(srv, names):
+    """Which names are served (some form answered without an error) to an AUTHENTICATED connection holding the SETUP
+    dataset: the guard against a vacuous probe.  Returns the names for which no form was served."""
+    unserved = []
+    for name in names:
+        if name in NO_CALIBRATION:
+            continue
+        served = False
+        for form in FORMS.get(name, []):
+            cl = Client(srv.port, timeout=2.0)
+            try:
+                cl.call([b'AUTH', PW], 2.0)
+                cl.call([b'FLUSHALL'], 2.0)
+                for a in SETUP:
+                    cl.call(a, 2.0)
+                r = cl.call([name.encode()] + form, 1.0)
+                if r[0] not in ('err', 'none', 'closed', 'garbage') or (name in ('BLPOP', 'BRPOP', 'MONITOR', 'QUIT') and r[0] != 'err'):
+                    served = True
+            finally:
+                cl.close()
+            if served:
+                break
+        if not served:
+            unserved.append(name)
+    return unserved
+
 
 def probe(ctx, srv, tr, cid, name, state, position):
     """One unauthenticated connection sends `name`; returns nothing, emits events."""
@@ -52,6 +128,8 @@ def probe(ctx, srv, tr, cid, name, state, position):
         reqs.append([b'GET', b'k'])
     for nargs in (1, 2):
         reqs.append([name.encode()] + ARGS[nargs])
+    for form in FORMS.get(name, []):
+        reqs.append([name.encode()] + form)
     cl = s.clients[c]
     t0 = tr.now()
     cl.send_raw(b''.join(resp.enc_cmd(a) for a in reqs))
@@ -113,8 +191,15 @@ def run(ctx):
     s = Session(srv, tr)
     admin = s.open()
     s.cmd(admin, [b'AUTH', PW])
+    unserved = calibrate(srv, names)
+    if unserved:
+        raise runner.ToolError('no well-formed invocation in FORMS is served to an authenticated connection for: %s '
+                               '(the unauthenticated probe of these names would be vacuous)' % unserved)
     s.cmd(admin, [b'FLUSHALL'])
-    s.cmd(admin, [b'SET', b'k', b'secret'])
+    s.cmd(admin, [b'SCRIPT', b'FLUSH'])
+    s.cmd(admin, [b'CONFIG', b'SET', b'slowlog-max-len', b'128'])
+    for a in SETUP:
+        s.cmd(admin, a)
     cid = 100
     cases = 0
     states = ['fresh', 'failed_auth'] if ctx.quick else ['fresh', 'failed_auth', 'fresh']
